@@ -1,8 +1,12 @@
 package props
 
 import (
+	"bufio"
+	"encoding/json"
+	"flag"
 	"fmt"
 	"math/bits"
+	"os"
 	"sort"
 	"strings"
 
@@ -164,3 +168,42 @@ func (p *c02) Finish(a *lib.Aggregate) (broken []string) {
 }
 
 var _ = strings.Join
+
+// Aux: `vh aux C02 -seed S -n N` dumps N loadable mutated documents (doc.Raw()) with the model's verdict
+// against the Swagger 2.0 schema, for the python cross-check (tools/crosscheck_swagger.py, thorough tier).
+func (p *c02) Aux(args []string) int {
+	fs := flag.NewFlagSet("aux", flag.ExitOnError)
+	seed := fs.Int64("seed", 1, "")
+	n := fs.Int("n", 2000, "")
+	_ = fs.Parse(args)
+	if err := p.Init(nil); err != nil {
+		fmt.Fprintln(os.Stderr, err)
+		return 2
+	}
+	w := bufio.NewWriter(os.Stdout)
+	defer w.Flush()
+	for i := 0; i < *n; i++ {
+		r := lib.NewRand(*seed, "C02-crosscheck", i)
+		text, _, _ := mutatedDoc(i, r, p.fixtures)
+		if text == nil {
+			continue
+		}
+		doc, err := sut.LoadSpec(text)
+		if err != nil {
+			continue
+		}
+		raw, err := model.Parse(doc.Raw())
+		if err != nil {
+			continue
+		}
+		mc := model.SwaggerCtx(model.Emu{})
+		v := mc.Valid(model.Swagger20, raw)
+		if mc.Unresolved {
+			continue
+		}
+		line, _ := json.Marshal(map[string]any{"document": json.RawMessage(doc.Raw()), "model_valid": v})
+		w.Write(line)
+		w.WriteByte('\n')
+	}
+	return 0
+}
